@@ -685,9 +685,12 @@ func (g *Graph) injectContextArg(injector *Injector, metaData *MetaData, varPool
 		// Use the Param from the argument directly, not from Params slice
 		existingContextArg.Param.Ref(false)
 
-		// Mark context import as used
-		if imp, exists := metaData.Imports[contextPkgPath]; exists {
-			imp.IsUsed = true
+		// Mark context import as used, unless the argument's type is spelled through an alias
+		// (type Ctx = context.Context) and the package name does not appear in the signature
+		if _, isAlias := existingContextArg.Type.(*types.Alias); !isAlias {
+			if imp, exists := metaData.Imports[contextPkgPath]; exists {
+				imp.IsUsed = true
+			}
 		}
 
 		return nil
